@@ -80,7 +80,7 @@ def run_cell(prop, tier, name, known_regions):
     # -- counterexample replay
     if st["cex"] is not None:
         inputs, msg = st["cex"]
-        r = sx.replay(cell.fn, inputs, known)
+        r = sx.replay(cell.fn, inputs, known, role="cex")
         if r[0] == "violation":
             res["violation"] = dict(cell=name, inputs=inputs, message=r[1], symbolic_message=msg)
         else:
@@ -98,7 +98,7 @@ def replay_known(prop, tier, entry):
         cell = _find_cell(prop, w.get("tier", tier), w["cell"])
     except KeyError:
         return ("error", "cell not found: " + w["cell"])
-    return sx.replay(cell.fn, w["inputs"], ())
+    return sx.replay(cell.fn, w["inputs"], (), role="known")
 
 
 def _pool(n):
@@ -231,7 +231,7 @@ def replay_file(path):
     with open(path) as f:
         v = json.load(f)
     cell = _find_cell(v["property"], v.get("tier", "quick"), v["cell"])
-    r = sx.replay(cell.fn, v["inputs"], ())
+    r = sx.replay(cell.fn, v["inputs"], (), role="cex")
     print(json.dumps(dict(outcome=r[0], detail=r[1]), indent=1)[:4000])
     if r[0] == "violation":
         print(f"VIOLATION property={v['property']} replay={path}")
